@@ -383,6 +383,58 @@ def nested_scenarios(ctx: Ctx) -> None:
     ctx.replayed += n
 
 
+UserId = typing.NewType("UserId", int)
+
+
+@dataclasses.dataclass
+class WrappedFields:
+    plain: int
+    ann: typing.Annotated[int, "meta"]
+    newt: UserId
+    both: typing.Annotated[UserId, 1]
+
+
+def wrapped_location_chains(ctx: Ctx) -> None:
+    """Router.tla ChainOnce on locations whose type is a wrapper of the same value (NewType, Annotated: "treated as origin"): the
+    location is ONE request, so a chain link whose predicate does not pin the spelled type (a field name, P[M].f, P.ANY, a
+    negation) composes with the next provider exactly once - as it does for the plain field next to it.  Abstract cases: the
+    one-link recipes [predY/first], [predY/last], [predY/deleg] of Router.tla with the builtin tail."""
+    from adaptix import Chain, P, Retort, dumper, loader, validator
+    n = 0
+    inc = lambda v: v + 1  # noqa: E731
+    for side, facade in (("load", loader), ("dump", dumper)):
+        for chain in (Chain.FIRST, Chain.LAST):
+            for pname, pred in (("field_name", lambda f: f), ("P[M].f", lambda f: getattr(P[WrappedFields], f)), ("P.ANY", lambda f: P.ANY),
+                                ("negation", lambda f: ~P[str] & getattr(P, f))):
+                for f in ("ann", "newt", "both"):
+                    n += 1
+                    recipe = [facade(pred(f), inc, chain), facade(pred("plain"), inc, chain)] if pname != "P.ANY" else [facade(P.ANY & (P.plain | getattr(P, f)), inc, chain)]
+                    try:
+                        r = Retort(recipe=recipe)
+                        if side == "load":
+                            got = r.load({"plain": 0, "ann": 0, "newt": 0, "both": 0}, WrappedFields)
+                            got = {"plain": got.plain, f: getattr(got, f)}
+                        else:
+                            d = r.dump(WrappedFields(0, 0, 0, 0))
+                            got = {"plain": d["plain"], f: d[f]}
+                    except Exception as e:  # noqa: BLE001
+                        ctx.violation({"what": "chain_on_wrapped_location_raises", "exc": type(e).__name__}, f"{side} {chain.name} {pname} on field {f}: {type(e).__name__}: {str(e)[:120]}", {})
+                        continue
+                    if got["plain"] != 1:
+                        raise MachineryError(f"wrapped_location_chains: the plain field was composed {got['plain']} times ({side} {chain.name} {pname})")
+                    if got[f] != 1:
+                        ctx.violation({"what": "chain_link_applied_again_after_unwrapping", "wrapper": {"ann": "Annotated", "newt": "NewType", "both": "Annotated[NewType]"}[f]},
+                                      f"{side}er({pname} of field {f}: {WrappedFields.__annotations__[f]}, v -> v + 1, Chain.{chain.name}): the link was applied "
+                                      f"{got[f]} times (0 became {got[f]}); on the plain int field next to it once", {"side": side, "chain": chain.name, "pred": pname, "field": f})
+    calls: list = []
+    Retort(recipe=[validator("ann", lambda x: calls.append(x) or True, "bad")]).load({"plain": 0, "ann": 0, "newt": 0, "both": 0}, WrappedFields)
+    n += 1
+    if len(calls) != 1:
+        ctx.violation({"what": "chain_link_applied_again_after_unwrapping", "wrapper": "Annotated", "via": "validator"},
+                      f"validator('ann', f, 'bad') on a field typed Annotated[int, 'meta']: f ran {len(calls)} times for one load", {})
+    ctx.replayed += n
+
+
 def recursive_chains(ctx: Ctx) -> None:
     """Router.tla StubIsFinal on the real library: chaining providers bound to a location that is re-entered recursively (through
     the recursion stub) compose with the next provider exactly once at EVERY level of a nested datum.  Self-referential models,
@@ -633,6 +685,7 @@ def run(ctx: Ctx) -> None:
     replay_cases(ctx, sim_cases, ctx.seed + 9)
     nested_scenarios(ctx)
     recursive_chains(ctx)
+    wrapped_location_chains(ctx)
     # spec mutant: non-vacuity of the model-level check
     cfg = make_cfg(constants=dict(MaxLen=2, ResetComboOnSingle=False, WithTail=False, Req='"A"', EmitCases=False), invariants=INVS)
     res = run_tlc(ctx.scratch, "Router", cfg, tag="Router_mutant", expect_violation=True, timeout_s=600)
